@@ -115,6 +115,7 @@ def run_prefix(prog, driver, prefix, opts):
     ctx = PathCtx(prefix, timeout_ms=opts.get("solver_timeout_ms", 20000), seed=opts.get("seed", 0))
     it = Interp(prog, ctx, Models(), max_steps=opts.get("max_steps", 400000))
     h = Harness(it)
+    h.params = opts.get("params", {})
     res = {"prefix": list(prefix), "status": "ok", "note": "", "failures": [], "covers": {}, "pending": [],
            "queries": 0, "solver_s": 0.0, "steps": 0, "checks": 0, "called": [], "models": []}
     try:
@@ -151,6 +152,7 @@ def run_prefix(prog, driver, prefix, opts):
     res["called"] = sorted(it.called)
     res["models"] = sorted(it.models_used)
     res["trace_len"] = len(ctx.trace)
+    res["fork_sites"] = ctx.fork_sites
     return res
 
 
@@ -203,6 +205,8 @@ def explore(mir_path, repo_core, driver_ref, opts=None, workers=None, max_paths=
                 summary["solver_s"] += r["solver_s"]
                 summary["steps"] += r["steps"]
                 summary["checks"] += r["checks"]
+                for k, v in r.get("fork_sites", {}).items():
+                    summary.setdefault("fork_sites", {})[k] = summary.setdefault("fork_sites", {}).get(k, 0) + v
                 summary["called"].update(r["called"])
                 summary["models"].update(r["models"])
                 for f in r["failures"]:
